@@ -379,6 +379,8 @@ impl<'a> Ev<'a> {
             rows.sort_by(|a, b| total_cmp_rows(a, b, &q.order));
         }
         let cols = q.columns();
+        // keys that are not projected: the caller needs the sorted rows with the keys still in them
+        let sorted_unprojected = if q.order.iter().any(|(k, _)| !cols.contains(k)) { rows.clone() } else { vec![] };
         let mut projected: Bag = rows
             .into_iter()
             .map(|r| r.into_iter().filter(|(k, _)| cols.contains(k)).collect::<Row>())
@@ -391,7 +393,7 @@ impl<'a> Ev<'a> {
         if let Some(l) = q.limit {
             projected.truncate(l);
         }
-        Ok(Answer { rows: projected, full, columns: cols })
+        Ok(Answer { rows: projected, full, columns: cols, sorted_unprojected })
     }
 }
 
@@ -401,6 +403,8 @@ pub struct Answer {
     /// the answer before LIMIT
     pub full: Bag,
     pub columns: Vec<String>,
+    /// only when an ORDER BY key is not projected: the solutions in sorted order, before projection
+    pub sorted_unprojected: Bag,
 }
 
 /// canonical text of a number (aggregate outputs are compared by value)
